@@ -77,12 +77,21 @@ func runC12(c *ctx, dist string, in time.Duration, rates []int, draws []int, cal
 		}
 	}
 	now := time.Unix(1_700_000_000, 0)
+	lateEvery := 0
+	if c.rng.Intn(3) == 0 {
+		lateEvery = 2 + c.rng.Intn(5)
+	}
 	// run-length encode, never across a cycle boundary (cycle boundary = underlying evaluated)
 	pos := 0
 	for k := 0; k < calls; k++ {
 		before := evals
 		out := fn(now)
 		now = now.Add(outD)
+		// the sub-ticks of a real ticker are not punctual: every few calls one arrives late by up to two sub-tick
+		// periods (a dropped tick after a stall); a cycle is N CALLS of the function, whatever their timestamps
+		if lateEvery > 0 && (k+1)%lateEvery == 0 {
+			now = now.Add(time.Duration(50+c.rng.Intn(200)) * time.Millisecond)
+		}
 		started := evals != before
 		if started {
 			pos = 0
